@@ -136,8 +136,9 @@ fn run(text: &str, acc: &Accepted, which: Which, tier: Tier) {
                     let here = interp::run(state, sem::INTERP_FUEL);
                     let exp = expected.as_ref().unwrap();
                     if !matches!(here, Outcome::OutOfFuel) && !matches!(exp, Outcome::OutOfFuel) {
-                        // a state that is stuck in the reference although the source was not: C01's business
-                        if outcome_key(&here) != outcome_key(exp) && !matches!(here, Outcome::Stuck(_)) {
+                        // (a source that is itself stuck in the reference is C01's business: then every state
+                        // is stuck too and the keys agree)
+                        if outcome_key(&here) != outcome_key(exp) {
                             violation(
                                 "step-changes-meaning",
                                 text,
@@ -601,6 +602,21 @@ fn alias_sweep(which: Which, tier: Tier) -> Sweep {
     })
 }
 
+fn nested_sweep(which: Which, tier: Tier) -> Sweep {
+    let fam = Rc::new(sem::nested_family());
+    let f2 = fam.clone();
+    Sweep::new(
+        "nested-group family (recursion, forward references and mutual recursion through nested groups)",
+        fam.len() as u64,
+        move |idx| {
+            count!("nested_family_programs");
+            examine(&fam[idx as usize], which, tier)
+        },
+        move |idx| f2[idx as usize].clone(),
+    )
+    .with_post_abort(abort_verdict)
+}
+
 fn order_sweep(which: Which, tier: Tier, k: usize) -> Sweep {
     let fam = Rc::new(c13::Family::new(k));
     let f2 = fam.clone();
@@ -795,6 +811,7 @@ pub fn sweeps_for(which: Which, tier: Tier) -> Vec<Sweep> {
     let mut v = vec![];
     match which {
         Which::C01 => {
+            v.push(nested_sweep(which, tier));
             v.push(typed_sweep(which, tier, true, true));
             v.push(small_sweep(which, tier));
             v.push(alias_sweep(which, tier));
@@ -802,22 +819,26 @@ pub fn sweeps_for(which: Which, tier: Tier) -> Vec<Sweep> {
             v.push(order_sweep(which, tier, 3));
         }
         Which::C02 => {
+            v.push(nested_sweep(which, tier));
             v.push(known_result_sweep("operand sweep: every operator on every pair of boundary integers", operand_programs(), tier));
             v.push(known_result_sweep("recursion, evaluation-order probes, examples", recursion_programs(), tier));
             v.push(typed_sweep(which, tier, false, false));
             v.push(alias_sweep(which, tier));
         }
         Which::C03 => {
+            v.push(nested_sweep(which, tier));
             v.push(typed_sweep(which, tier, true, true));
             v.push(small_sweep(which, tier));
             v.push(alias_sweep(which, tier));
         }
         Which::C04 => {
+            v.push(nested_sweep(which, tier));
             v.push(typed_sweep(which, tier, true, true));
             v.push(alias_sweep(which, tier));
             v.push(small_sweep(which, tier));
         }
         Which::C06 => {
+            v.push(nested_sweep(which, tier));
             v.push(normalizer_operand_sweep());
             v.push(typed_sweep(which, tier, false, false));
             v.push(alias_sweep(which, tier));
